@@ -1,4 +1,4 @@
 SPECIFICATION TSpec
-INVARIANTS C13 C13Hist C06
+INVARIANTS C13 C13Hist C13Expect C06
 POSTCONDITION Accepted
 CHECK_DEADLOCK FALSE
